@@ -79,7 +79,7 @@ def build_problem(case):
             regions=(rng.random() < 0.5))
         if not P['types']['a'].get('use_low_fidelity_model') and \
                 rng.random() < 0.6:
-            feats['pin'] = wl.add_pin_model(rng, P, 'a')
+            feats['pin'] = wl.add_pin_model(rng, P, 'a', gap=0.6)
         shape_axial(rng, P, [0], mode)
     else:
         P, feats = wl.core_problem(rng, n_ring=2, tdep=(rng.random() < 0.3),
@@ -88,7 +88,7 @@ def build_problem(case):
                                    vel_range=(0.2, 5.0), regions_frac=0.5)
         for nm, t in P['types'].items():
             if not t.get('use_low_fidelity_model') and rng.random() < 0.5:
-                wl.add_pin_model(rng, P, nm)
+                wl.add_pin_model(rng, P, nm, gap=0.6)
         shape_axial(rng, P, [int(k) for k in P['power']['asm']], mode)
         # a cold neighbour next to hot ones: duct peaks move off the outlet
         ks = sorted(P['power']['asm'], key=int)
